@@ -1,6 +1,7 @@
 CONSTANTS
   MaxAttrs = 2
   Names3 = {}
+  WithInput = FALSE
   TreeDepth = 1
 SPECIFICATION Spec
 INVARIANTS AgreesWithOperator Sound DynNamesDistinct NeverNegative
